@@ -93,6 +93,7 @@ struct Ctx
   std::atomic<long> handlerCalls{0};
   std::atomic<long> unjustified{0};
   std::atomic<int> workerSeq{0};
+  bool leak = false; // a worker may still be using this context: the owner must not free it
   std::mutex noteMu;
   std::string unjustifiedWhat; // first one
   std::string unknownWhat;
@@ -232,6 +233,21 @@ void submit(Ctx *cx, int id)
   }
 }
 
+/// Main-thread check made immediately after stop()/shutdown()/~ThreadPool returned: is there a task
+/// whose submission had been accepted (status published by its submitter) and whose body has not
+/// finished? One-sided: a task the harness does not yet know to be accepted is not judged.
+std::string unfinishedAccepted(Ctx &cx)
+{
+  for (std::size_t i = 0; i < cx.tasks.size(); ++i)
+  {
+    TaskRec &t = *cx.tasks[i];
+    if (t.status.load(std::memory_order_acquire) != sAccepted) continue;
+    if (t.finished.load(std::memory_order_acquire) == 0)
+      return pbt::Fmt() << "task " << i << " had been accepted and " << (t.exec.load() ? "was still running" : "had not started");
+  }
+  return std::string();
+}
+
 struct SubOp
 {
   int task;
@@ -341,7 +357,7 @@ void run(Plan &pl, Ctx &cx, pbt::Case &c)
   };
   bool pendingAtStop = false;
   bool stopFailed = false;
-  std::string stopMsg;
+  std::string stopMsg, earlyWhat;
   if (pl.endMode == 0)
   {
     // destruction needs the external callers out of the object (C++ lifetime rule); nested
@@ -356,7 +372,12 @@ void run(Plan &pl, Ctx &cx, pbt::Case &c)
   case 1:
   {
     auto r = cx.pool->stop();
-    if (r.success) cx.afterStop.store(true, std::memory_order_release);
+    if (r.success)
+    {
+      cx.afterStop.store(true, std::memory_order_release);
+      earlyWhat = unfinishedAccepted(cx);
+      if (!earlyWhat.empty()) earlyWhat += " when stop() returned success";
+    }
     else
     {
       stopFailed = true;
@@ -367,6 +388,8 @@ void run(Plan &pl, Ctx &cx, pbt::Case &c)
   case 2:
     cx.pool->shutdown();
     cx.afterStop.store(true, std::memory_order_release);
+    earlyWhat = unfinishedAccepted(cx);
+    if (!earlyWhat.empty()) earlyWhat += " when shutdown() returned";
     break;
   case 3:
   case 4:
@@ -391,12 +414,29 @@ void run(Plan &pl, Ctx &cx, pbt::Case &c)
   if (pl.endMode == 4)
   {
     auto r = cx.pool->stop();
-    if (r.success) cx.afterStop.store(true, std::memory_order_release);
+    if (r.success)
+    {
+      cx.afterStop.store(true, std::memory_order_release);
+      if (earlyWhat.empty())
+      {
+        earlyWhat = unfinishedAccepted(cx);
+        if (!earlyWhat.empty()) earlyWhat += " when stop() (after drain()) returned success";
+      }
+    }
     else
     {
       stopFailed = true;
       stopMsg = r.message;
     }
+  }
+  if (!earlyWhat.empty())
+  {
+    // a worker is still alive behind the pool's back: do not destroy the pool or the context under it
+    for (auto &t : th)
+      if (t.joinable()) t.join();
+    cx.leak = true;
+    c.fail("C09/stop-returned-before-accepted-task-finished", earlyWhat);
+    return;
   }
   atomicMax(cx.maxThreads, cx.pool->getTotalThreadCount());
   delete cx.pool;
@@ -439,6 +479,7 @@ void run(Plan &pl, Ctx &cx, pbt::Case &c)
       ++accepted;
       if (ex == 0 || t.finished.load() == 0)
       {
+        if (ex != 0) cx.leak = true; // its worker is still running and will touch the context
         c.fail("C09/accepted-task-not-run", pbt::Fmt() << "task " << i << " (" << kindName(t.kind) << " via " << apiName(t.api)
                                                        << ") was accepted but had not " << (ex ? "finished" : "run") << " when ~ThreadPool() returned");
         return;
@@ -601,6 +642,7 @@ void generated(pbt::Src &src, pbt::Case &c)
   }
   c.describe(d.str());
   run(pl, cx, c);
+  if (cx.leak) cxp.release();
 }
 
 // Fixed case for finding C09-1: the spawn decision is taken under the lock, the spawn happens after
@@ -633,6 +675,7 @@ void barrierBurst(pbt::Case &c, std::size_t maxSize, int nSubs, int endMode)
   c.describe(pbt::Fmt() << "ThreadPool(0, " << maxSize << ", 50ms, 64): " << nSubs << " submitters released from a barrier, 3 submissions each, then "
                         << (endMode == 0 ? "destruction" : "stop()"));
   run(pl, *cxp, c);
+  if (cxp->leak) cxp.release();
 }
 
 // Second consequence of the same defect (finding C09-1): the worker is registered in _threads only
@@ -661,12 +704,304 @@ void idleExitBeforeRegistration(pbt::Case &c)
   c.describe("ThreadPool(0, 1, 1ms, 64): one submitter; the thread that spawns the first worker is delayed 6 ms between creating "
              "it and registering it; two more submissions follow; then destruction");
   run(pl, *cxp, c);
+  if (cxp->leak) cxp.release();
+}
+
+
+// ================================================================================ pool_slow
+// Work that outlasts every internal time bound of the shutdown paths. Read from thread_pool.hpp:
+//   shutdown():  poll "active == 0 && pending == 0" every 50 ms for at most 5000 ms ("proceeding
+//                anyway"), sleep 10 ms, re-check, poll again for at most 1000 ms, then join
+//   ~ThreadPool: phase 2 barrier <= ~200 ms (+5 ms), phase 3 drain poll <= 5000 ms, phase 4 join
+//   drain(t):    poll for at most t ms (stop() uses the default 30 000 ms), failure on timeout;
+//                stop() from Running gives up when its drain() fails, stop() from Draining goes
+//                straight to shutdown()
+// so the join is what really waits. A scenario keeps every worker busy with a task that still
+// needs R ms when the end call is made, R just beyond 5000 (first bound), just beyond
+// 5000+10+1000 (second bound) or well beyond both, plus short tasks queued behind it. One case runs
+// six scenarios concurrently (they sleep), so a case costs ~max(R) wall time and no CPU.
+struct SlowPlan
+{
+  std::size_t initial = 1, maxSize = 1;
+  int idleMs = 5;
+  int mode = 0;
+  int endMode = 0; // 0 destructor 1 stop() 2 shutdown() 3 drain(short)+destructor 4 drain(short)+stop()
+  int longMs = 7000;
+  int longApi = 0;
+  int nShort = 1;
+  int shortSpec = 0;
+  int offsetMs = 0;  // delay between "long tasks running" and the end call
+  int drainMs = 100; // short drain timeout (modes 3, 4)
+};
+struct SlowResult
+{
+  std::string sig, what, label;
+  bool inconclusive = false;
+};
+const char *slowEndName(int m)
+{
+  static const char *n[] = {"~ThreadPool()", "stop()", "shutdown()", "drain(short)+~ThreadPool()", "drain(short)+stop()"};
+  return n[m];
+}
+
+void runSlow(const SlowPlan &pl, SlowResult &res)
+{
+  auto cxp = std::make_unique<Ctx>();
+  Ctx &cx = *cxp;
+  cx.maxSize = pl.maxSize;
+  cx.maxQueue = 16;
+  Ctx *cxr = &cx;
+  auto handler = [cxr](std::exception_ptr) { cxr->handlerCalls.fetch_add(1); };
+  std::vector<int> longIds, shortIds;
+  for (std::size_t i = 0; i < pl.maxSize; ++i) longIds.push_back(addTask(cx, kSleep, (pl.longApi + static_cast<int>(i)) % 3, pl.longMs * 1000));
+  for (int i = 0; i < pl.nShort; ++i)
+  {
+    static const int ck[] = {kValue, kVoid, kThrow, kSleep};
+    shortIds.push_back(addTask(cx, ck[(pl.shortSpec / (1 + i)) % 4], (pl.shortSpec / (5 + i)) % 3, 200));
+  }
+  cx.pool = new ThreadPool(pl.initial, pl.maxSize, std::chrono::milliseconds(pl.idleMs), cx.maxQueue, handler,
+                           pl.mode ? ThreadPool::ShutdownMode::GRACEFUL : ThreadPool::ShutdownMode::IMMEDIATE);
+  for (int id : longIds) submit(&cx, id);
+  // every worker is inside a long task before the short ones are queued behind them
+  for (int spins = 0;; ++spins)
+  {
+    bool all = true;
+    for (int id : longIds)
+      if (cx.tasks[static_cast<std::size_t>(id)]->status.load() == sAccepted && cx.tasks[static_cast<std::size_t>(id)]->exec.load() == 0) all = false;
+    if (all) break;
+    sched::sleepUs(200);
+  }
+  for (int id : shortIds) submit(&cx, id);
+  if (pl.offsetMs) sched::sleepUs(static_cast<std::uint32_t>(pl.offsetMs) * 1000);
+  cx.stopBegun.store(true, std::memory_order_release);
+  std::string early;
+  auto judge = [&](const char *call)
+  {
+    cx.afterStop.store(true, std::memory_order_release);
+    early = unfinishedAccepted(cx);
+    if (!early.empty()) early += std::string(" when ") + call + " returned";
+  };
+  bool stopFailed = false;
+  switch (pl.endMode)
+  {
+  case 1:
+  {
+    auto r = cx.pool->stop();
+    if (r.success) judge("stop() (success, Stopped)");
+    else stopFailed = true;
+    break;
+  }
+  case 2:
+    cx.pool->shutdown();
+    judge("shutdown()");
+    break;
+  case 3:
+  case 4:
+  {
+    auto r = cx.pool->drain(static_cast<std::uint32_t>(pl.drainMs));
+    (void)r; // times out by construction; no claim is attached to drain()
+    if (pl.endMode == 4)
+    {
+      auto r2 = cx.pool->stop();
+      if (r2.success) judge("stop() from Draining (success, Stopped)");
+      else stopFailed = true;
+    }
+    break;
+  }
+  default: break;
+  }
+  if (!early.empty())
+  {
+    // a detached worker is still using the pool and the context: leave both alone
+    cxp.release();
+    res.sig = "C09/stop-returned-before-accepted-task-finished";
+    res.what = early;
+    return;
+  }
+  delete cx.pool;
+  judge("~ThreadPool()");
+  if (!early.empty())
+  {
+    cxp.release();
+    res.sig = "C09/accepted-task-not-run";
+    res.what = early;
+    return;
+  }
+  sched::sleepUs(300);
+  if (cx.lateBodies.load() > 0)
+  {
+    res.sig = "C09/task-running-after-stop-returned";
+    res.what = pbt::Fmt() << "task " << cx.lateId.load() << " started or was still running after " << slowEndName(pl.endMode) << " had returned";
+    return;
+  }
+  if (!cx.unknownWhat.empty())
+  {
+    res.inconclusive = true;
+    return;
+  }
+  for (std::size_t i = 0; i < cx.tasks.size(); ++i)
+  {
+    TaskRec &t = *cx.tasks[i];
+    int st = t.status.load(), ex = t.exec.load();
+    if (st == sAccepted && ex != 1)
+    {
+      res.sig = ex ? "C09/task-ran-twice" : "C09/accepted-task-not-run";
+      res.what = pbt::Fmt() << "task " << i << " was accepted and ran " << ex << " times";
+      return;
+    }
+    if (st != sAccepted && ex != 0)
+    {
+      res.sig = "C09/refused-task-ran";
+      res.what = pbt::Fmt() << "task " << i << " ran although its submission was refused";
+      return;
+    }
+    if (st == sAccepted && t.hasFut)
+    {
+      if (!t.fut.valid() || t.fut.wait_for(std::chrono::seconds(0)) != std::future_status::ready)
+      {
+        res.sig = "C09/future-not-ready";
+        res.what = pbt::Fmt() << "future of task " << i << " is not ready after the pool was destroyed";
+        return;
+      }
+      try
+      {
+        long v = t.fut.get();
+        if (t.kind == kThrow || v != expectedValue(static_cast<int>(i)))
+        {
+          res.sig = "C09/future-wrong-result";
+          res.what = pbt::Fmt() << "future of task " << i << " holds value " << v;
+          return;
+        }
+      }
+      catch (const TaskError &e)
+      {
+        if (t.kind != kThrow || e.id != static_cast<int>(i))
+        {
+          res.sig = "C09/future-wrong-result";
+          res.what = pbt::Fmt() << "future of task " << i << " holds a foreign exception";
+          return;
+        }
+      }
+      catch (const std::exception &e)
+      {
+        res.sig = "C09/future-wrong-result";
+        res.what = pbt::Fmt() << "future of task " << i << " holds " << e.what();
+        return;
+      }
+    }
+  }
+  if (cx.unjustified.load() > 0)
+  {
+    res.sig = "C09/refused-without-documented-reason";
+    res.what = cx.unjustifiedWhat;
+    return;
+  }
+  if (static_cast<std::size_t>(cx.maxRunning.load()) > pl.maxSize || cx.maxThreads.load() > pl.maxSize)
+  {
+    res.sig = "C09/thread-count-exceeds-max";
+    res.what = pbt::Fmt() << cx.maxRunning.load() << " concurrent bodies / " << cx.maxThreads.load() << " threads with maxSize " << pl.maxSize;
+    return;
+  }
+  if (stopFailed) res.label = "stop() reported failure (no claim attached)";
+}
+
+std::string slowText(const SlowPlan &p)
+{
+  return pbt::Fmt() << "[pool(initial=" << p.initial << ", max=" << p.maxSize << ", idle=" << p.idleMs << "ms) " << p.maxSize << " task(s) of "
+                    << p.longMs << " ms + " << p.nShort << " queued short task(s); " << p.offsetMs << " ms later " << slowEndName(p.endMode)
+                    << (p.endMode >= 3 ? " drainTimeout=" + std::to_string(p.drainMs) + "ms" : std::string()) << "]";
+}
+
+void runSlowCase(std::vector<SlowPlan> &plans, pbt::Case &c)
+{
+  iora::core::Logger::setLevel(iora::core::Logger::Level::Fatal);
+  std::string d = "pool_slow:";
+  for (auto &p : plans) d += " " + slowText(p);
+  c.describe(d);
+  std::vector<SlowResult> res(plans.size());
+  std::vector<std::thread> th;
+  for (std::size_t i = 0; i < plans.size(); ++i) th.emplace_back([&, i] { runSlow(plans[i], res[i]); });
+  for (auto &t : th) t.join();
+  bool inconclusive = false;
+  for (std::size_t i = 0; i < plans.size(); ++i)
+  {
+    if (!res[i].sig.empty())
+    {
+      c.fail(res[i].sig, slowText(plans[i]) + ": " + res[i].what);
+      return;
+    }
+    inconclusive = inconclusive || res[i].inconclusive;
+    if (!res[i].label.empty()) c.label(res[i].label);
+    c.label(std::string("end: ") + slowEndName(plans[i].endMode));
+    int remaining = plans[i].longMs - plans[i].offsetMs;
+    c.label(remaining > 6100 ? "remaining work beyond shutdown()'s 5 s + 1 s polls" : remaining > 5000 ? "remaining work beyond the 5 s poll" : "remaining work < 5 s");
+  }
+  if (inconclusive) c.inconclusive("submission threw an undocumented exception");
+  c.nontrivial(pbt::hash64(d));
+}
+
+void generatedSlow(pbt::Src &src, pbt::Case &c)
+{
+  pbt::watchdog(180, "C09/shutdown-stalled");
+  static const int modes[] = {2, 4, 1, 0, 3, 2, 4};
+  const int rot = static_cast<int>(src.range(0, 6));
+  std::vector<SlowPlan> plans;
+  for (int i = 0; i < 6; ++i)
+  {
+    SlowPlan p;
+    p.endMode = modes[(rot + i) % 7];
+    p.maxSize = static_cast<std::size_t>(src.range(1, 2));
+    p.initial = static_cast<std::size_t>(src.range(0, static_cast<std::int64_t>(p.maxSize)));
+    p.idleMs = static_cast<int>(src.oneOf<int>({1, 5, 20}));
+    p.mode = static_cast<int>(src.range(0, 1));
+    // remaining work at the end call: just beyond the 5 s poll, just beyond 5 s + 10 ms + 1 s, well beyond
+    switch (src.weighted({1, 2, 3}))
+    {
+    case 0: p.longMs = static_cast<int>(src.range(5250, 5900)); break;
+    case 1: p.longMs = static_cast<int>(src.range(6400, 7000)); break;
+    default: p.longMs = static_cast<int>(src.range(7200, 8800)); break;
+    }
+    p.offsetMs = static_cast<int>(src.oneOf<int>({0, 0, 20, 100, 250}));
+    p.longMs += p.offsetMs; // the class above is about what is left when the end call is made
+    p.longApi = static_cast<int>(src.range(0, 2));
+    p.nShort = static_cast<int>(src.range(1, 3));
+    p.shortSpec = static_cast<int>(src.range(0, 999));
+    p.drainMs = static_cast<int>(src.oneOf<int>({1, 60, 300, 1200}));
+    plans.push_back(p);
+  }
+  runSlowCase(plans, c);
+}
+
+// Deterministic shape for the seeded/hand-made change "shutdown() lets the workers go when its
+// completion polls time out": explicit shutdown() and drain(100)+stop() on a pool whose only worker
+// still needs 7 s, with a future-returning task queued behind it.
+void slowRegression(pbt::Case &c)
+{
+  pbt::watchdog(180, "C09/shutdown-stalled");
+  std::vector<SlowPlan> plans(2);
+  plans[0].endMode = 2;
+  plans[1].endMode = 4;
+  for (auto &p : plans)
+  {
+    p.initial = 1;
+    p.maxSize = 1;
+    p.idleMs = 5;
+    p.longMs = 7000;
+    p.longApi = aEnqueue;
+    p.nShort = 2;
+    p.drainMs = 100;
+  }
+  plans[0].shortSpec = 11; // queued: sleep via enqueueWithResult (future), void via tryEnqueue
+  plans[1].shortSpec = 10; // queued: throwing via enqueueWithResult (future), void via tryEnqueue
+  runSlowCase(plans, c);
 }
 
 } // namespace c09
 
 PBT_REGRESSION(worker_idle_exit_before_registration) { c09::idleExitBeforeRegistration(c); }
 PBT_PROPERTY(pool) { c09::generated(src, c); }
+PBT_PROPERTY(pool_slow) { c09::generatedSlow(src, c); }
+PBT_REGRESSION(stop_waits_for_task_longer_than_internal_polls) { c09::slowRegression(c); }
 PBT_REGRESSION(max_threads_barrier_submitters) { c09::barrierBurst(c, 2, 8, 0); }
 PBT_REGRESSION(max_threads_barrier_submitters_max1_stop) { c09::barrierBurst(c, 1, 8, 1); }
 
